@@ -97,5 +97,17 @@ EXTRA_TEXT2 = {
 }
 for _k, _v in EXTRA_TEXT2.items():
     CHECKS[_k]["text"] += _v
+EXTRA_TEXT3 = {
+ "C02": " Wave 7: the last-block flag handed to predict_block is exactly 'final element of the block list'; every block-histogram index is a function of the token alone; the reconstruction path constructs no more error results than the reference tree.",
+ "C03": " Wave 7: the deflate reader takes bytes from its source through all-or-error reads only.",
+ "C04": " Wave 7: multiset of integer constants used as plain values (assigned, stored, passed) on the reconstruction path; number of error results the reconstruction path constructs.",
+ "C05": " Wave 7: a container indexed by an element of a constant table provably covers the table's range (this rule found the code-length-order-table defect of the property text, since repaired); every natural loop on the analysis path has a recognised progress argument (finite standard iterator, fallible input consumption examined in the loop, monotone counter tested by an exit, or a reviewed row with an exact count) - a shape clause of 'no hang', not a time bound.",
+ "C06": " Wave 7: the decisions of parse_zip_stream are an enumerated closed set.",
+ "C07": " Wave 7: the token record stores length, distance and flag losslessly and its accessors return the fields unmasked; all-or-error reads in the reader.",
+ "C08": " Wave 7: last-block flag and no-new-rejection rules shared with C02.",
+ "C12": " Wave 7: the wrapper bodies construct no error of their own.",
+}
+for _k, _v in EXTRA_TEXT3.items():
+    CHECKS[_k]["text"] += _v
 for _k, _v in NOTE_FIX.items():
     CHECKS[_k]["note"] = _v
